@@ -67,9 +67,9 @@ theorem isZero_iff (a : α) : isZero a = true ↔ a = 0 := by
     simp [h1]
 end
 
-theorem tabulate2_eq {α : Type} (n m : Nat) (f : Nat → Nat → α) : tabulate2 n m f = f := by
+theorem tabGet_tabOf {α : Type} (n m : Nat) (f : Nat → Nat → α) : tabGet (tabOf n m f) f = f := by
   funext i j
-  unfold tabulate2
+  unfold tabGet tabOf
   split
   · rename_i row hrow
     split
@@ -82,5 +82,8 @@ theorem tabulate2_eq {α : Type} (n m : Nat) (f : Nat → Nat → α) : tabulate
       exact hv.symm
     · rfl
   · rfl
+
+theorem tabulate2_eq {α : Type} (n m : Nat) (f : Nat → Nat → α) : tabulate2 n m f = f :=
+  tabGet_tabOf n m f
 
 end PsV
